@@ -562,3 +562,58 @@ def gen_columnfiltershape(repo):
             f"def innerOps : List String := [{', '.join(chr(34) + m + chr(34) for m in inner_ops)}]\n"
             f"def singleOps : List String := [{', '.join(chr(34) + m + chr(34) for m in single_ops)}]\n"
             "end PqV.Gen.ColumnFilterShape\n")
+
+
+@register("PerCall")
+def gen_percall(repo):
+    """The per-call resources the concurrency property names: a file object per read call, a private copy of the file
+    metadata per part file, scratch buffers allocated inside the functions that fill them."""
+    api = ast.parse(open(os.path.join(repo, "fastparquet", "api.py")).read())
+    wr = ast.parse(open(os.path.join(repo, "fastparquet", "writer.py")).read())
+    u = lambda n: ast.unparse(n).replace(" ", "")   # noqa: E731
+    cls = [n for n in api.body if isinstance(n, ast.ClassDef) and n.name == "ParquetFile"][0]
+    tp = [n for n in cls.body if isinstance(n, ast.FunctionDef) and n.name == "to_pandas"]
+    if len(tp) != 1:
+        raise Unsupported("ParquetFile.to_pandas not found")
+    opens = [u(n) for n in ast.walk(tp[0]) if isinstance(n, ast.Assign) and "self.open(" in u(n.value)]
+    # the opened file must be bound to a local name, never stored on the handle
+    file_local = opens == ["infile=self.open(self.fn,'rb')"]
+    attr_files = [u(n) for n in ast.walk(tp[0]) if isinstance(n, ast.Assign) and any(u(t).startswith("self.") for t in n.targets)
+                  and ("open(" in u(n.value) or "infile" in u(n.value))]
+    cols_copy = any(isinstance(n, ast.If) and u(n.test) == "columnsisnotNone" and [u(x) for x in n.body] == ["columns=columns[:]"]
+                    for n in ast.walk(tp[0]))
+    mp = find_func(wr, "make_part_file")
+    # every assignment to an attribute of `fmd` must come after `fmd = copy(fmd)` in the same block
+    copied_before_mutation = True
+    seen_mut = False
+    for blk in [n for n in ast.walk(mp) if isinstance(n, (ast.If, ast.With, ast.FunctionDef))]:
+        for body in (getattr(blk, "body", []), getattr(blk, "orelse", [])):
+            copied = False
+            for st in body:
+                if isinstance(st, ast.Assign) and u(st) == "fmd=copy(fmd)":
+                    copied = True
+                if isinstance(st, ast.Assign) and any(u(t).startswith("fmd.") for t in st.targets):
+                    seen_mut = True
+                    if not copied:
+                        copied_before_mutation = False
+    md = find_func(wr, "make_definitions")
+    scratch_local = any(isinstance(n, ast.Assign) and u(n) == "buf=np.empty(10,dtype=np.uint8)" for n in md.body) and \
+        any(isinstance(n, ast.Assign) and u(n) == "temp=NumpyIO(buf)" for n in md.body)
+    ed = find_func(wr, "encode_dict")
+    scratch_local2 = any(isinstance(n, ast.Assign) and u(n) == "buf=np.empty(10,dtype=np.uint8)" for n in ed.body)
+    # module-level arrays / bytearrays in the writer and the reader
+    mod_bufs = []
+    for name, tree in (("writer", wr), ("api", api), ("core", ast.parse(open(os.path.join(repo, "fastparquet", "core.py")).read()))):
+        for n in tree.body:
+            if isinstance(n, ast.Assign) and isinstance(n.value, ast.Call) and u(n.value.func) in ("np.empty", "np.zeros", "bytearray", "np.ones"):
+                mod_bufs.append(name + "." + u(n.targets[0]))
+    b = lambda x: "true" if x else "false"   # noqa: E731
+    return ("-- REGENERATED on every run by tools/translate_callsites.py from fastparquet/api.py, writer.py, core.py — do not edit\n"
+            "namespace PqV.Gen.PerCall\n"
+            f"def fileObjectPerReadCall : Bool := {b(file_local and not attr_files)}\n"
+            f"def columnListCopied : Bool := {b(cols_copy)}\n"
+            f"def partFileCopiesMetadataBeforeChangingIt : Bool := {b(copied_before_mutation and seen_mut)}\n"
+            f"def levelScratchPerCall : Bool := {b(scratch_local)}\n"
+            f"def dictScratchPerCall : Bool := {b(scratch_local2)}\n"
+            f"def moduleLevelBuffers : List String := [{', '.join(chr(34) + m + chr(34) for m in mod_bufs)}]\n"
+            "end PqV.Gen.PerCall\n")
